@@ -261,5 +261,21 @@ CHECKS["C16"] = {
             "Observer-array bounds are scanned per header, not proved (no theorem about propdep's counter yet). F9 repaired by a fix: commit; F7/F8 see known findings.",
 }
 
+CHECKS["C01"] = {
+    "text": "The property itself is decided per program and world, on the real output: the evaluation function emitted by uigen for a generated binding program is compiled "
+            "(g++ -std=c++17 with -fsanitize=address,undefined) against the API model and executed in worlds of the referenced objects; its value is compared with the "
+            "value model/Sem.v (a big-step evaluator of the AST in an object world, written from docs/language.md: 32-bit int with undefined overflow, wrapping uint, "
+            "truncating / and %, lazy && || ?:, if/else, switch with fall-through / break / default anywhere, let/const scoping, return; integer literal sub-expressions "
+            "in Z) gives to the source program in the same world, whenever that value is defined. Proofs (closed under the global context) fix the reference semantics "
+            "on the points the statement names: int arithmetic is exact and in range or undefined, uint wraps, division by zero / INT_MIN % -1 / bad shifts / null "
+            "dereference are undefined, && || ?: are lazy, translation-time folding agrees with the run-time meaning on literals. NOT proved: the general statement "
+            "(compile correctness for all programs and worlds) -- an open obligation; every theorem of this property is named C01_partial_*.",
+    "technique": "executable Coq reference semantics with partial proofs + differential execution of the real emitted C++ (g++, ASan/UBSan) against it over generated programs and worlds",
+    "design_ref": "5 C01",
+    "note": "PARTIAL: the unbounded claim (all programs x all worlds) is not a theorem. Trusted: g++, the API model (cxxrt/qtmock.h + vlib/cxx.py), Sem.v as the reading of "
+            "docs/language.md; programs are generated inside the fragment Sem.v covers (bool/int/uint/QString/VObj*; no double, enum, list, variant arithmetic -- those "
+            "types are exercised for validity under C16 and for typing under C05). IR equality model/implementation is established by C05/C06/C07's K legs.",
+}
+
 NOT_YET = {
 }
